@@ -178,15 +178,16 @@ def r10c(ck, prog):
             ck.violation("R10c", "R10c/make_seq/omp-%s" % omp[0].d["omp"].split()[0], where,
                          "the member loop runs under `omp %s`: its iterations are distributed over (or deferred to) other threads, so "
                          "this call does not itself visit every member before make_seq returns" % omp[0].d["omp"], prog.config)
-        seq0 = [m.kids[0].text() for m in c.args[0].find("MemberExpr") if m.d.get("field") == "len"]
-        seq1 = [m.kids[0].text() for m in c.args[1].find("MemberExpr") if m.d.get("field") == "gaps"]
+        from ..util import expand_aliases
+        e0, e1 = expand_aliases(M, c.args[0]), expand_aliases(M, c.args[1])
+        seq0 = [e0[:-len("->len")]] if e0.endswith("->len") else []
+        seq1 = [e1[:-len("->gaps")]] if e1.endswith("->gaps") else []
         vec = c.args[2].strip(casts=True)
         grp = None
-        for x in c.args[1].find("DeclRefExpr"):
-            if x.d["did"] == pa["did"]:
-                grp = "a"
-            if x.d["did"] == pb["did"]:
-                grp = "b"
+        if ("sip[%s]" % pa["name"]) in e1:
+            grp = "a"
+        if ("sip[%s]" % pb["name"]) in e1:
+            grp = "b" if grp is None else None
         init = lp.child("init")
         bound_txt = (init.text() if init is not None else "") + " " + (lp.child("cond").text() if lp.child("cond") is not None else "")
         ck.inst("R10c", where, "group %s: update_gaps(%s, %s, %s) for %s" % (grp, c.args[0].text()[:40], c.args[1].text()[:40], vec.text(), bound_txt.strip()[:50]), prog.config)
@@ -203,12 +204,12 @@ def r10c(ck, prog):
             raise AnalysisBroken("R10c: the member loop at %s is not one of the recognised counting idioms" % lp.loc)
         var, lo, hi = rng
         full = lo.is_const() and lo.c == 0 and hi.c == 0 and hi.t == {"msa->nsip[%s]" % gname: 1}
-        uses_var = any(x.d["name"] == var for x in c.args[1].find("DeclRefExpr"))
+        uses_var = ("sip[%s][%s]" % (gname, var)) in e1
         if not full or not uses_var:
             ck.violation("R10c", "R10c/make_seq/coverage-%s" % grp, where,
                          "the loop over group %s visits members [%s, %s) instead of [0, nsip[%s]): some members do not receive "
                          "the new columns and the group is sheared" % (grp, lo, hi, grp), prog.config)
-        if ("sip[%s]" % (pa["name"] if grp == "a" else pb["name"])) not in c.args[1].text():
+        if ("sip[%s]" % (pa["name"] if grp == "a" else pb["name"])) not in e1:
             ck.violation("R10c", "R10c/make_seq/member-list-%s" % grp, where, "members are not taken from sip[%s]" % grp, prog.config)
         groups.setdefault(grp, set()).add(vec.text())
         if any(not isinstance(r, bool) and r for r in [guards_in_loop(c, lp)]):
